@@ -299,7 +299,49 @@ def _srckind(s):
     return repr(s)[:24]
 
 
+def builtin_sweep(res):
+    """Every builtin of the function table is called (through eval) on a handful of arguments, twice, with a host mutation of
+    the first result in between: module-level state must stay pristine and the second answer must equal the first."""
+    api = snapshot.api()
+    tpl = template()
+    ms0 = _MS0[0]
+    argsets = ['"a b c"', '"a b c", " "', '[3, 1, 2]', '[3, 1, 2], v => v', '{"a": 1}', '{"a": 1}, "a"', '2.5', '"ab", "a", "b"', '[1, 2], 0',
+               '"x1y22", "[0-9]+"', '[1, 2], ","', '1, 3', '']
+    for f in sorted(api.FUNCTIONS):
+        if f.startswith('__') or f in ('rand', 'shuffle'):
+            continue
+        for a in argsets:
+            src = f'{f}({a})'
+            p = clone.pristine(tpl)
+            outs = []
+            for attempt in (1, 2):
+                try:
+                    r = p.eval(src, {})
+                    outs.append(('ok', show(r)))
+                    if attempt == 1 and isinstance(r, list):
+                        r.append('HOST')            # the host edits the value it was handed
+                    elif attempt == 1 and isinstance(r, dict):
+                        r['HOST'] = 1
+                except Exception as e:  # noqa
+                    outs.append(('exc', type(e).__name__, str(e)))
+                res.count('calls')
+            if outs[0] != outs[1]:
+                res.violation(f'repeat:{f}', 'the same call gives a different answer the second time (after the host edited the first result)',
+                              {'history': [['eval', src, 'fresh', None]] * 2, 'expected': repr(outs[0])[:300], 'observed': repr(outs[1])[:300]})
+            ms1 = module_state()
+            if ms1 != ms0:
+                diff = [x for x in ms1 if x not in ms0][:3]
+                res.violation(f'module-state:{diff[0][0] if diff else "?"}:{diff[0][1] if diff else "?"}',
+                              'a call changed state that outlives it outside the parser object (module-level container / memo cache / decimal '
+                              'context)', {'history': [['eval', src, 'fresh', None]], 'expected': 'pristine module state', 'observed': repr(diff)[:400]})
+                _restore_module_state()
+
+
 def work(task):
+    if task[0] == 'builtin-sweep':
+        res = runner.Result()
+        builtin_sweep(res)
+        return res
     hists, acts_idx = task
     res = runner.Result()
     acts = actions()
@@ -348,6 +390,8 @@ def main(tier, seed, t0):
         idx = None if depth <= b['DEPTH'] else deep
         n = max(1, len(frontier) // 64 + 1)
         tasks = [(frontier[i:i + n], idx) for i in range(0, len(frontier), n)]
+        if depth == 1:
+            tasks.append(('builtin-sweep',))
         tasks = runner.rotate(tasks, seed)
         r = runner.run_tasks(work, tasks, selftest=(depth == 1))
         new = []
